@@ -21,7 +21,8 @@ CONSTANTS
   Updater = "%(updater)s"
   NReq = %(nreq)d
   UseBlocks = %(blocks)s
-INVARIANTS Sorted OncePerRequest CommonOrder ActiveNoDup ExactlyOnce HeldBlocksSync ActiveWasSynced Delivered VisitedOK CallbackExclusive OnlyWellFormed
+  FatalKinds = %(fatal)s
+INVARIANTS OnlyHandlersVeto Sorted OncePerRequest CommonOrder ActiveNoDup ExactlyOnce HeldBlocksSync ActiveWasSynced Delivered VisitedOK CallbackExclusive OnlyWellFormed
 %(props)s
 CHECK_DEADLOCK FALSE
 '''
@@ -30,6 +31,7 @@ BASE = dict(regorder='<<"pa", "pb", "pc">>', pidx='[pa |-> 10, pb |-> 10, pc |->
             pmask='[pa |-> {"CreateContainer", "StartContainer"}, pb |-> {"CreateContainer"}, '
                   'pc |-> {"StartContainer", "CreateContainer"}]',
             callers='{"c1", "c2"}', badones='{}', failable='{"pb"}', vetoers='{"pa"}', updater="pc", nreq=1, blocks="TRUE",
+            fatal='{"closed", "server-closed", "protocol", "deadline", "truncated"}',
             props="PROPERTIES AllDone RegsEnd")
 
 
@@ -72,6 +74,10 @@ class Relay(recorded.Module):
                            pmask='[pa |-> {"CreateContainer", "StartContainer"}, pb |-> {"CreateContainer"}, '
                                  'bad1 |-> {"CreateContainer"}, bad2 |-> {"CreateContainer"}]',
                            badones='{"bad1", "bad2"}', updater="pa", failable='{}'))
+        if prop in ("C07", "REL"):
+            # the classification before repair D14: a frame cut short was not a reason to drop the plugin
+            cfgs.append(mc("MCR_truncated_not_fatal", workers=4, expect="OnlyHandlersVeto", props="",
+                           fatal='{"closed", "server-closed", "protocol", "deadline"}'))
         if prop in ("C08", "REL"):
             # vacuity guard: a runtime that forgets the sync blocks must break ExactlyOnce in the model
             cfgs.append(mc("MCR_noblocks", workers=4, expect="ExactlyOnce", blocks="FALSE", props=""))
